@@ -26,6 +26,10 @@ EXTENDS Bytes
 ESC   == 27
 Blank == 32
 
+\* longest parameter string of a control sequence the emulator follows (a colour sequence may stack
+\* many attributes: ESC[0;1;4;38;2;r;g;b;48;2;r;g;bm has 39 parameter bytes); beyond it: junk
+MaxPar == 96
+
 MaxI(a, b) == IF a >= b THEN a ELSE b
 MinI(a, b) == IF a <= b THEN a ELSE b
 
@@ -119,7 +123,7 @@ Step(t, b) ==
          ELSE Junk(ToGround(t))                                  \* ESC x: not emulated
     [] t.st = "csi" ->
          IF b \in 48..63
-         THEN IF Len(t.par) < 24 THEN [t EXCEPT !.par = Append(t.par, b)] ELSE Junk(ToGround(t))
+         THEN IF Len(t.par) < MaxPar THEN [t EXCEPT !.par = Append(t.par, b)] ELSE Junk(ToGround(t))
          ELSE IF b \in 64..126 THEN Dispatch(ToGround(t), t.par, b)
          ELSE IF b < 32 THEN Interrupted(t, b)
          ELSE Junk(ToGround(t))
